@@ -22,7 +22,7 @@ class Sorter(Protocol):
 class NoSorter(Sorter):
     def sort_files(self, trashed_files,  # type: Iterable[TrashedFile]
                    ):  # type: (...) -> Iterable[TrashedFile]
-        return trashed_files
+        return list(trashed_files)
 
 
 class SortFunction(Sorter):
